@@ -179,7 +179,7 @@ func (l *listener) EnterPrimaryExpr(ctx *parser.PrimaryExprContext) {
 	if list == nil {
 		return
 	}
-	count := list.GetChildCount()
+	count := len(list.AllExpression())
 	if count == 0 {
 		return
 	}
@@ -242,7 +242,7 @@ func (l *listener) doExtract(kw Keyword, fnName string, list parser.IExpressionL
 		return
 	}
 	maxArgs := kw.MaxArgIndex()
-	count := list.GetChildCount()
+	count := len(list.AllExpression()) // 参数个数 (GetChildCount 会把逗号也算进去)
 	if maxArgs > count {
 		return
 	}
@@ -255,12 +255,14 @@ func (l *listener) doExtract(kw Keyword, fnName string, list parser.IExpressionL
 	}
 	if i := kw.MsgID; i > 0 {
 		param := list.Expression(i - 1)
-		if s, ok := isStringLiteral(param); ok {
-			at := param.GetStart()
-			entry.MsgID = s
-			entry.MsgCmts = append(entry.MsgCmts, fmt.Sprintf("#: %s:%s",
-				l.file, l.pos.Add(at.GetLine(), at.GetColumn())))
+		s, ok := isStringLiteral(param)
+		if !ok {
+			return // msgid 不是字符串字面量 无法抽取 (空 msgid 的条目会覆盖 POT 文件头)
 		}
+		at := param.GetStart()
+		entry.MsgID = s
+		entry.MsgCmts = append(entry.MsgCmts, fmt.Sprintf("#: %s:%s",
+			l.file, l.pos.Add(at.GetLine(), at.GetColumn())))
 	}
 	if i := kw.MsgID2; i > 0 {
 		param := list.Expression(i - 1)
